@@ -35,4 +35,18 @@ def vcJwtSignatureK (supported : List String) (E : Env) (issuer : String) (j : J
     | [s] => if s.kid ≠ "" && didPartS s.kid ≠ issuer then .reject else .accept vs   -- errVerificationMethodNotOfIssuer
     | _ => .reject
 
+/-! ### crypto.ExtractProtectedHeaders (feeds the key resolver's metadata: did:x509 takes its key material from `x5c`) -/
+
+inductive Xph where
+  | err                          -- ErrorInvalidNumberOfSignatures
+  | headers (s : Option Sig)     -- the protected headers of THE signature; `none`: the empty map
+  deriving Repr, DecidableEq
+
+def extractProtectedHeaders (tokEmpty : Bool) (j : Jws) : Xph :=
+  if tokEmpty then .headers none
+  else if !j.parses then .headers none          -- `message, _ := jws.ParseString(jwt)`: parse errors are ignored
+  else match j.sigs with
+    | [s] => .headers (some s)
+    | _ => .err
+
 end Nuts.C17.Kid
